@@ -682,8 +682,13 @@ class Spec:
                 if any(has_effect(c) or uses_state(c) for c in others):
                     raise OutOfClass("onmatch beside components with effects or state")
                 votes = [self.vote(c) for c in others]
+                omc = self.prog[om[0]]
                 if all(v is not False for v in votes):
-                    votes.append(self.vote(strip_onmatch(self.prog[om[0]])))
+                    votes.append(self.vote(strip_onmatch(omc)))
+                elif omc["k"] == "eq" and has_effect(omc["r"]):
+                    # `@x.onmatch = f(...)`: the qualifier is the assignment's; the function on the right has none of its own and keeps
+                    # its books on every scanned line — only the write to x waits for a match
+                    self.value(omc["r"])
                 if self.stop_fired or self.skip_fired:
                     raise OutOfClass("onmatch on a control function")
             for j, c in enumerate(self.prog if not om else []):
